@@ -621,3 +621,78 @@ func TestVerif_C09_SocketTally(t *testing.T) {
 		}
 	})
 }
+
+// TestVerif_C09_RestartStorm: many host addresses (one socket and one addCandidate each) and Restart landing
+// at a drawn instant inside the cycle, repeated; after every Restart, once the cancelled cycle has wound
+// down, the agent must hold no local candidate and no socket of the ended generation (nothing was gathered
+// for the new one yet).
+func TestVerif_C09_RestartStorm(t *testing.T) {
+	st := vfNewStats(t)
+	lf := simLoggerFactory
+	rapid.Check(t, func(rt *rapid.T) {
+		nAddrs := rapid.IntRange(4, 32).Draw(rt, "hostAddresses")
+		rounds := rapid.IntRange(4, 24).Draw(rt, "restarts")
+		var ifc fnIface
+		ifc = fnIface{Name: "eth0", Up: true}
+		for i := 0; i < nAddrs; i++ {
+			ifc.Addrs = append(ifc.Addrs, fmt.Sprintf("10.0.%d.%d", i/200, 1+i%200))
+		}
+		fn := newFakeNet([]fnIface{ifc})
+		a, err := NewAgentWithOptions(WithNet(fn), WithLoggerFactory(lf), WithMulticastDNSMode(MulticastDNSModeDisabled),
+			WithCandidateTypes([]CandidateType{CandidateTypeHost}), WithNetworkTypes([]NetworkType{NetworkTypeUDP4}))
+		if err != nil {
+			rt.Fatalf("harness: %v", err)
+		}
+		defer func() {
+			done := make(chan struct{})
+			go func() { _ = a.Close(); close(done) }()
+			select {
+			case <-done:
+			case <-time.After(20 * time.Second):
+			}
+		}()
+		_ = a.OnCandidate(func(Candidate) {})
+		midCycle := 0
+		for r := 0; r < rounds; r++ {
+			spin := rapid.IntRange(0, 400).Draw(rt, "spinMicros")
+			if err := a.GatherCandidates(); err != nil {
+				rt.Fatalf("harness: gather: %v", err)
+			}
+			var done chan struct{}
+			_ = a.loop.Run(a.loop, func(context.Context) { done = a.gatherCandidateDone })
+			for t0 := time.Now(); time.Since(t0) < time.Duration(spin)*time.Microsecond; {
+			}
+			select {
+			case <-done:
+			default:
+				midCycle++
+			}
+			if err := a.Restart("", ""); err != nil {
+				rt.Fatalf("harness: restart: %v", err)
+			}
+			select {
+			case <-done:
+			case <-time.After(20 * time.Second):
+				dead, dump := vfStuck("pion/ice/v4.(*Agent)")
+				if dead {
+					st.Fail(rt, "C09/cycle/never-winds-down", "cancelled gather cycle still running\n%s", dump)
+				}
+				st.Inconclusive()
+				rt.Fatalf("VERIF-INCONCLUSIVE: gather cycle still running after 20 s")
+			}
+			locals, _ := a.GetLocalCandidates()
+			open, _, total := fn.tally()
+			if len(locals) != 0 || len(open) != 0 {
+				st.Fail(rt, "C09/leak/candidate-of-cancelled-cycle-survives-restart",
+					"after Restart (round %d, %d addresses, spin %d µs) and the end of the cancelled cycle: %d local candidate(s) %v, %d of %d socket(s) open %v",
+					r, nAddrs, spin, len(locals), locals, len(open), total, open)
+			}
+		}
+		st.Record(vfHashStr(fmt.Sprintf("%d/%d/%d", nAddrs, rounds, midCycle)), midCycle > 0, fmt.Sprintf("restart-mid-cycle:%v", midCycle > 0))
+		if midCycle > 0 && st.WantSample() {
+			st.Sample(func() string {
+				return fmt.Sprintf("%d host addresses, %d gather+Restart rounds, %d of them with the cycle still running at Restart", nAddrs, rounds, midCycle)
+			})
+		}
+	})
+}
